@@ -45,7 +45,7 @@ func (e *engine) Info() core.Info {
 	return core.Info{
 		Prop:  "C07",
 		Level: "fault_enumeration",
-		Rule:  "a case is one stored item (a tape-generated geometry of one of the seven WKB types incl. nested collections, serialised by an independent writer with uniform or per-element mixed byte orders; its hex form; its GeoJSON document; a geojson.Geometry value with an arbitrarily shaped Coordinates tree; an adversarial frame: collection nesting up to the 64 KiB bound, multi-geometries with wrongly typed children; or a random byte string) read back under the ENUMERATED fault set for that item: truncation at every offset, every single-bit flip of every header/count/byte-order/type byte (all bits of items <=256 bytes, sampled beyond), every count field overwritten with each of 11 values up to 2^32-1, every byte-order byte with all 256 values, every type code with 40 codes, block duplication/splice, and for wkb.Read an I/O error and an early EOF at every offset under several chunking schedules plus truncated media whose reader returns the last bytes together with io.EOF; hex: every string of length <=1, prefix-like 2-character strings, substitutions; GeoJSON: truncation at every offset, byte substitutions, arbitrarily shaped coordinates, and documents near the size bound with skewed shapes (one long member and thousands of empty ones, many members with one malformed); evaluations = faulted decodes; non-trivial = the fault changed at least one stored byte or the reader's behaviour; distinct = distinct hash of (entry point, faulted bytes, reader schedule)",
+		Rule:  "a case is one stored item (a tape-generated geometry of one of the seven WKB types incl. nested collections, serialised by an independent writer with uniform or per-element mixed byte orders; its hex form; its GeoJSON document; a geojson.Geometry value with an arbitrarily shaped Coordinates tree; an adversarial frame: collection nesting up to the 64 KiB bound, multi-geometries with wrongly typed children; or a random byte string) read back under the ENUMERATED fault set for that item: truncation at every offset, every single-bit flip of every header/count/byte-order/type byte (all bits of items <=256 bytes, sampled beyond), every count field overwritten with each of 13 values up to 2^32-1 and with ~330 values crafted to wrap a 32-bit size computation, every byte-order byte with all 256 values, every type code with 40 codes, block duplication/splice, and for wkb.Read an I/O error and an early EOF at every offset under several chunking schedules plus truncated media whose reader returns the last bytes together with io.EOF; hex: every string of length <=1, prefix-like 2-character strings, substitutions; GeoJSON: truncation at every offset, byte substitutions, arbitrarily shaped coordinates, and documents near the size bound with skewed shapes (one long member and thousands of empty ones, many members with one malformed); evaluations = faulted decodes; non-trivial = the fault changed at least one stored byte or the reader's behaviour; distinct = distinct hash of (entry point, faulted bytes, reader schedule)",
 		Real:  []string{"wkb.Read / wkb.Decode and all per-type readers", "hex.Decode", "geojson.Decode / FromGeoJSON", "the matching encoders wkb.Encode / hex.Encode / geojson.Encode for the round-trip clause", "encoding/binary, encoding/json underneath"},
 		Stubs: []string{"the storage medium and the io.Reader handed to wkb.Read (simulated: chunking, (0,nil) reads, injected error, early EOF)", "an independent WKB serializer that writes the stored items and records field offsets"},
 		FaultKinds: []string{
@@ -740,6 +740,11 @@ func (r *run) exec() {
 	r.flushLate()
 }
 
+// element sizes for which wrap-around counts are generated: a point (16), a
+// point record inside a multipoint (21), an element header (5, 9), slice
+// headers (24), and neighbours
+var wrapSizes = []uint64{3, 5, 7, 9, 12, 13, 16, 17, 20, 21, 24, 25, 32, 33, 37, 40, 48}
+
 var countValues = []uint32{0, 1, 2, 1 << 16, 1 << 20, 1 << 22, 1 << 24, 1 << 28, 1 << 31, 1<<32 - 1, 0x01000000}
 
 var typeCodes = []uint32{0, 1, 2, 3, 4, 5, 6, 7, 8, 9, 10, 11, 12, 13, 14, 15, 16, 17, 18, 100, 1000, 1001, 1003, 1007, 2001, 2003, 3001, 0x20000001, 0x40000001, 0x80000001, 0xa0000003, 0xe0000007, 0x01000000, 0x07000000, 0xff, 0xffff, 0xffffff, 0xffffffff, 0x7fffffff, 0x80000000}
@@ -797,6 +802,19 @@ func (r *run) wkbItem(stream bool) {
 			b := clone(item)
 			put32(b, off, v, lay.cntLE[i])
 			r.wkbBytes("count-overwrite", b, item)
+		}
+		// counts crafted to wrap a 32-bit size computation: the smallest c with
+		// c*m >= k*2^32 for plausible element sizes m (c*m mod 2^32 is then
+		// tiny, so a guard computed in uint32 passes)
+		if i < 3 {
+			for _, m := range wrapSizes {
+				for k := uint64(1); k < m; k++ {
+					c := (k<<32 + m - 1) / m
+					b := clone(item)
+					put32(b, off, uint32(c), lay.cntLE[i])
+					r.wkbBytes("count-overwrite(wraps-size)", b, item)
+				}
+			}
 		}
 		// the count written in the *other* byte order (a classic corruption)
 		b := clone(item)
